@@ -106,3 +106,18 @@ func VerifWalletLocked(km spectypes.KeyManager) bool {
 	}
 	return true
 }
+
+// VerifWalletState probes the wallet lock without blocking: held (by anybody) for reading or writing, and whether a
+// request that needs it for READING would block (held for writing, or a writer is waiting). The caller holds nothing.
+func VerifWalletState(km spectypes.KeyManager) (held bool, readersBlock bool) {
+	k := km.(*ethKeyManagerSigner)
+	if k.walletLock.TryLock() {
+		k.walletLock.Unlock()
+		return false, false
+	}
+	if k.walletLock.TryRLock() {
+		k.walletLock.RUnlock()
+		return true, false
+	}
+	return true, true
+}
